@@ -40,6 +40,10 @@ TRANSPARENT = {
     "core::future::into_future::IntoFuture::into_future": 0,
     "core::iter::traits::collect::IntoIterator::into_iter": 0,
     "core::convert::identity": 0,
+    # Hyphenated's Display prints exactly what Uuid's Display prints (uuid crate: Display for Uuid delegates to it);
+    # the other adapters (simple / urn / braced) are different texts and are NOT transparent
+    "uuid::fmt::<impl uuid::Uuid>::hyphenated": 0,
+    "uuid::fmt::<impl uuid::Uuid>::as_hyphenated": 0,
     "core::hint::must_use": 0,
     "anyhow::__private::must_use": 0,
 }
@@ -235,6 +239,18 @@ class Prov:
         args = tuple(self.operand_term(a) for a in node["args"])
         if callee in self.transparent and len(args) > self.transparent[callee]:
             return args[self.transparent[callee]]
+        if callee == "alloc::fmt::format" and len(args) == 1:
+            # format!("{}", x) is x.to_string(): the template bytes [0xC0, 0] are "one argument, default formatting, end"
+            a = args[0]
+            if a[0] == "call" and a[1] == "core::fmt::Arguments::<'a>::new" and len(a[3]) == 2 and a[3][0][0] == "const" \
+                    and a[3][0][2] == ("bytes", 192, 0):
+                arr = a[3][1]
+                while arr[0] == "mut":
+                    arr = arr[3]
+                if arr[0] == "agg" and arr[1] == "array" and len(arr[2]) == 1:
+                    e = arr[2][0][1]
+                    if e[0] == "call" and e[1] == "core::fmt::rt::Argument::<'_>::new_display" and len(e[3]) == 1:
+                        return ("call", "alloc::string::ToString::to_string", bb, (e[3][0],))
         if callee in NOT_CALLEES and len(args) == 1 and node["dest"]["ty"] == "bool":
             return ("unop", "Not", args[0])       # `ensure!(cond)` tests `anyhow::__private::not(cond)`
         return ("call", callee, bb, args)
@@ -250,6 +266,8 @@ class Prov:
                 return ("fn", o["closure"])
             d = o.get("def")
             v = o.get("val")
+            if v is None and "bytes" in o:
+                v = ("bytes",) + tuple(o["bytes"])
             if d is not None and v is None:
                 v = self.body.prog.const_value(d)
             if isinstance(v, list):
